@@ -458,7 +458,15 @@ func runC11(c *Ctx) {
 			}
 			if as, ok := n.(*ast.AssignStmt); ok && len(as.Lhs) == 1 && strings.HasSuffix(exprString(as.Lhs[0]), ".Timestamp") {
 				if describeExpr(pk, as.Rhs[0], 0) == "call:time.Now()" && loop != nil && containsNode(loop, as) {
-					okStamp = true
+					// the clock must be read inside the loop, for this entry: a direct call, or a local defined in the loop
+					switch r := ast.Unparen(as.Rhs[0]).(type) {
+					case *ast.CallExpr:
+						okStamp = true
+					case *ast.Ident:
+						if v, ok := pk.Info().Uses[r].(*types.Var); ok && v.Pos() > loop.Pos() && v.Pos() < loop.End() {
+							okStamp = true
+						}
+					}
 				}
 			}
 			return true
